@@ -139,9 +139,14 @@ def one_case(r, m, stats, model_lines, expectations, fails):
         name = r.choice(TZNAMES)
         tz = dt.timezone(dt.timedelta(microseconds=off), name) if name else dt.timezone(dt.timedelta(microseconds=off))
     now = gen.rand_instant(r)
+    # one case in twenty: a cluster of cyclic jobs due within a few microseconds of each other, centuries ahead
+    # (where a float timestamp can no longer tell them apart): the rows are still ordered by instant
+    cluster = r.random() < 0.05
+    if cluster:
+        now = gen.day_us(r.choice([2300, 2500, 2900]), 6, 15) + r.randrange(0, 86400) * 10**6
     m["clock"].set_now(now)
     now_dt = dt.datetime.now(tz)
-    n = r.choice([0, 1, 1, 2, 3, 4, 6])
+    n = r.choice([0, 1, 1, 2, 3, 4, 6]) if not cluster else r.choice([3, 4, 6])
     used = set()
 
     def build(sch):
@@ -153,6 +158,8 @@ def one_case(r, m, stats, model_lines, expectations, fails):
             # distinct due instants (ties would make the row order depend on set iteration order)
             while True:
                 delta = r.choice([1, 59, 3600, 86400, 86399, 10**5, 10**7, 3 * 10**8, 10**9]) * r.choice([-1, 1]) + r.randrange(-50, 50)
+                if cluster or r.random() < 0.25:
+                    delta = 10**5 + r.randrange(0, 8) / 10**6       # due instants one or a few microseconds apart
                 if delta not in used:
                     used.add(delta)
                     break
@@ -172,7 +179,7 @@ def one_case(r, m, stats, model_lines, expectations, fails):
             if not aio:
                 kw["weight"] = r.choice(WEIGHTS)
             try:
-                ty = r.randrange(5)
+                ty = r.randrange(5) if not cluster else 0
                 if ty == 0:
                     j = sch.cyclic(dt.timedelta(seconds=10), h, **kw)
                 else:
